@@ -31,7 +31,7 @@ def main():
   ids = sorted(x for x in os.listdir(S) if os.path.exists(os.path.join(S, x, "meta.json")))
   with multiprocessing.Pool(16) as pool:
     rows = pool.map(one, ids, chunksize=1)
-  rnd = {"s": "1/2", "t": "3", "u": "4", "v": "5", "w": "6"}
+  rnd = {"s": "1/2", "t": "3", "u": "4", "v": "5", "w": "6", "x": "7"}
   out = ["# Seeded changes", "",
          "Each directory holds `patch.diff` (applies to /repo at the commit named in DESIGN.md section 12), `demo.py` (PASS on the unchanged tree, FAIL with the patch) and `meta.json`.",
          "Every change was produced by an independent sub-agent that saw only the property text, and was validated with `tools/seed_eval.py` (applies, compiles, pinned suite unchanged, demo flips) before it was stored.",
